@@ -5,6 +5,7 @@ import Abmarl.Model.MgrDriver
 import Abmarl.Spec.Examples
 import Abmarl.Model.CorridorDriver
 import Abmarl.Model.MultiGridDriver
+import Abmarl.Model.BroadcastDriver
 /-!
 Driver glue for the packaged example simulations (`gexample`, `mgrx`).  Trusted base.
 
@@ -31,7 +32,8 @@ Driver glue for the packaged example simulations (`gexample`, `mgrx`).  Trusted 
   `examples_hist`).
 
 A configuration `(corridor end n)` (`MultiCorridor`, not a grid world) is handed to `Model/CorridorDriver.lean`
-(both ops), a configuration `(multigrid learning comp)` (`MultiAgentGridSim`) to `Model/MultiGridDriver.lean`.
+(both ops), a configuration `(multigrid learning comp)` (`MultiAgentGridSim`) to `Model/MultiGridDriver.lean`, a
+configuration `(broadcast …)` (`BroadcastSim` of comms_blocking.py; `gexample` only) to `Model/BroadcastDriver.lean`.
 
 **`(mgrx cfg stat dyn0 kind shuffle mgrTape simTape ops implTrace)`** — a real manager over the
 real example; `ops` = `(r)` | `(s ((agent (dr dc) attack)…))`; entries as in `mgr` with observations
@@ -150,6 +152,7 @@ def handle (args : List Val) : Option Val := do
   match args with
   | (.list (.atom "corridor" :: _)) :: _ => CorridorDriver.handle args      -- `MultiCorridor` (not a grid world)
   | (.list (.atom "multigrid" :: _)) :: _ => MultiGridDriver.handle args    -- `MultiAgentGridSim`
+  | (.list (.atom "broadcast" :: _)) :: _ => BroadcastDriver.handle args    -- `BroadcastSim` (comms_blocking.py)
   | [cfg, stat, dyn, ops, impl] =>
     let cfg ← cfg? cfg
     let w0 ← world? stat dyn
